@@ -23,8 +23,6 @@ ASSUMPTIONS = [
     "or without a separate predict_expectations call after each predict",
     "sklearn.model_selection.train_test_split is trusted for the random split",
     "chunk sizes below the test-set size need > 1 GB of distances and are not reached",
-    "LinTS under Radius / KNearest / LSHNearest is excluded while the known finding D8 reproduces (per-arm generators "
-    "are not reseeded per row, so the simulator's by-product expectation draw shifts later rows)",
 ]
 NT_FLOOR = 0.15
 D8 = simgen.D8
